@@ -167,6 +167,12 @@ pub enum InvalidSchemaError {
         not an object type. The root query type must be defined with the \"type\" keyword."
     )]
     QueryTypeNotAnObject(String),
+
+    #[error(
+        "The schema defines a type named \"{0}\", which is the name of a built-in scalar type. \
+        Built-in scalar types cannot be redefined."
+    )]
+    BuiltinScalarRedefinition(String),
 }
 
 impl From<Vec<InvalidSchemaError>> for InvalidSchemaError {
